@@ -186,14 +186,27 @@ def run(ctx):
         uniq = {}
         for n in some:
             uniq.setdefault(gen.fold(flav, n), n)
+        # names at the 30-byte limit: exactly 30 bytes next to its own 29-byte prefix, and one longer than the limit
+        long30 = b"a_name_of_exactly_thirty_bytes"
+        for n in (long30, long30[:29], b"longer_than_the_limit_" + b"0123456789abcd"):
+            uniq.setdefault(gen.fold(flav, n[:30]), n)
         some = list(uniq.values())
         for i, n in enumerate(some):
             L += ["open 0 - %s w" % hexs(n), "write 0 %d %d" % (i + 1, i + 1), "close 0"]
+        # on directory-cache volumes the listing served from the cache blocks is held to the same standard
         L.append("list - 0 0")
         li_list = len(L)
+        if flav >= 4:
+            L.append("list - 1 0")
         rc, out, err, wd = common.run_script(ctx, "\n".join(L) + "\n", timeout=300)
         res = common.parse_results(out)
         ents = [common.kv(x)[1] for x in res.get(li_list, []) if x.startswith("E ")]
+        if flav >= 4:
+            cents = [common.kv(x)[1] for x in res.get(li_list + 1, []) if x.startswith("E ")]
+            if sorted(e["name"] for e in cents) != sorted(e["name"] for e in ents):
+                ctx.fail("oracle", "the listing served from the directory cache reports other names than the hash-table listing", {"flavour": flav, "script": L},
+                         expected=sorted(e["name"] for e in ents), actual=sorted(e["name"] for e in cents))
+            ents = ents + cents
         L2 = list(L)
         chk = []
         for e in ents:
@@ -202,7 +215,7 @@ def run(ctx):
             L2.append("close 1")
         rc, out, err, wd = common.run_script(ctx, "\n".join(L2) + "\numount\numountdev\n", timeout=300)
         res = common.parse_results(out)
-        if len(ents) != len(some):
+        if len(ents) != len(some) * (2 if flav >= 4 else 1):
             ctx.fail("oracle", "listing shows %d entries after creating %d distinct names" % (len(ents), len(some)), {"flavour": flav, "script": L}, expected=len(some), actual=len(ents))
         for (li, e) in chk:
             st = (res.get(li) or ["?"])[0]
